@@ -4,4 +4,6 @@
    configurations switch one check of the transcription off and MUST violate OnlyValidEnter. *)
 EXTENDS Admission
 MCSpec == Spec
+\* the large peer sets on their own (V >= 5); control PeerVerifyLimit = 4 MUST violate OnlyValidEnter
+MCBigSpec == BigSpec
 ====
